@@ -9,6 +9,6 @@ def run(ctx):
                               "N=1,2,3 for the four sorting functions; the same spectra as diagonal / cube-rotated tensors "
                               "through all 8 eigen-solvers (values and vectors); non-trivial = at least two distinct values",
                          nontrivial=lambda c: len(set(c.get("in") or c["a"][:3])) > 1 or any(c.get("a", [0] * 6)[3:]),
-                         sig=lambda b: ",".join(sorted(b["fails"])) + ":n%d:%s" % (b["obs"]["n"], b["obs"]["ord"]),
+                         sig=lambda f, b: f + ":n%d:%s" % (b["obs"]["n"], b["obs"]["ord"]),
                          assumptions=["values abstracted by dense rank; eigen-solver accuracy is C03's business: the sorted "
                                       "result is compared with the unsorted result of the same solver"])
